@@ -130,6 +130,16 @@ Definition powi_asis (p : Z) (m : mode) (s e n : Z) : result approx :=
       (fun inv => Ok (approx_and_then inv (fun s' e' => c_repr_round p m s' e')))
   else Ok (powi_pos p m s e n).
 
+(** the class of the open finding F07 (powi_overlong_operand): the operand is longer than twice the working
+    precision of the powering that Context::powi runs (for a negative exponent: the powering at the
+    enlarged precision): Context::sqr / mul round it first and drop the flag of that rounding *)
+Definition powi_overlong (p s n : Z) : bool :=
+  if p =? 0 then false
+  else if n <? 0 then
+    let rp := powi_neg_precision_gen no_f32 p (powi_neg_guard_bits_gen no_f32 p) in
+    (Z.abs n >? 1) && (dlen B s >? 2 * powi_work_precision rp (- n))
+  else (n >? 1) && (dlen B s >? 2 * powi_work_precision p n).
+
 (* ------------------------------------------------------------------ series code *)
 Section F32.
 Context {F : Type} (O : f32ops F).
